@@ -148,6 +148,9 @@ func (b *prefixBatch) Put(key, value []byte) error {
 }
 
 func (b *prefixBatch) Write() error {
+	if verifDropWrite() {
+		return nil
+	}
 	return b.db.Write(b.b, nil)
 }
 
